@@ -55,7 +55,20 @@ class ProjectionUnavailable(Exception):
     """The recorder cannot see the pending rows of the pipeline (an internal of pyjelly was renamed): nothing can be concluded from this run."""
 
 
-def record_write_run(integ, entry, ptype, stmts, fs, preset, explicit_flow=False):
+class _Iter:
+    """An iterator that is not a generator object (what a csv reader, a database cursor or a queue adapter is)."""
+
+    def __init__(self, it):
+        self._it = it
+
+    def __iter__(self):
+        return self
+
+    def __next__(self):
+        return next(self._it)
+
+
+def record_write_run(integ, entry, ptype, stmts, fs, preset, explicit_flow=False, iter_kind="generator"):
     """Run one real serializer pipeline; returns the event log.
     explicit_flow: the frame size is configured through an explicit FrameFlow object in SerializerOptions.flow (options.frame_size stays 250)."""
     mod = __import__(f"pyjelly.integrations.{integ}.serialize", fromlist=["stream_frames"])
@@ -86,7 +99,10 @@ def record_write_run(integ, entry, ptype, stmts, fs, preset, explicit_flow=False
         """Synthesize the `enc` event of the statement whose rows have been added since the last observation."""
         i = state["pulled"]
         if i > state["enc_done"]:
-            if the_stream() is None:       # a statement has been handed over, so the pipeline has built its Stream by now
+            if the_stream() is None:
+                g_ = state["gen"]
+                if g_ is not None and g_.gi_frame is not None and "stream" in g_.gi_code.co_varnames:
+                    return                 # the pipeline HAS such a variable and has not assigned it yet although a statement was handed over: it is reading ahead
                 raise ProjectionUnavailable("no Stream visible (local variable `stream` in the frame of flat_stream_to_frames)")
             total = state["frame_rows"] + pending()
             if not state["enrolled"]:                                   # flat_stream_to_frames enrolls after the first pull
@@ -109,12 +125,13 @@ def record_write_run(integ, entry, ptype, stmts, fs, preset, explicit_flow=False
             events.append({"e": "pull", "i": state["pulled"], "pending": pending()})
             yield (terms.stmt_to_generic(st) if integ == "generic" else impl.rdflib_statement(st))
 
+    src = source() if iter_kind == "generator" else map(lambda x: x, source()) if iter_kind == "map" else _Iter(source())
     if entry == "flat_stream_to_frames":
-        gen = mod.flat_stream_to_frames(source(), impl.make_options(cfg))
+        gen = mod.flat_stream_to_frames(src, impl.make_options(cfg))
         state["gen"] = gen
     else:
         state["stream"] = impl.make_stream(cfg)
-        gen = mod.stream_frames(state["stream"], source())
+        gen = mod.stream_frames(state["stream"], src)
     k = 0
     while True:
         events.append({"e": "resume"})
@@ -177,7 +194,8 @@ def main(tier: str) -> int:
                         entry = ("flat_stream_to_frames", "stream_frames")[(bi + fs) % 2]
                         explicit = (bi + n) % 3 == 0 and fs != 250
                         try:
-                            ev = record_write_run(integ, entry, c["PType"], stmts, fs, (c["MaxN"], c["MaxP"], c["MaxD"]), explicit_flow=explicit)
+                            ik = ("generator", "map", "iterator-class")[(bi + fs + n) % 3]
+                            ev = record_write_run(integ, entry, c["PType"], stmts, fs, (c["MaxN"], c["MaxP"], c["MaxD"]), explicit_flow=explicit, iter_kind=ik)
                         except ProjectionUnavailable as ex:
                             run.model_drift(f"write pipeline {entry} cannot be observed ({ex}): event log skipped")
                             continue
@@ -187,7 +205,7 @@ def main(tier: str) -> int:
                             continue
                         tid += 1
                         groups.setdefault((fs, n, "TRUE" if entry == "stream_frames" else "FALSE"), []).append({"id": tid, "events": ev})
-                        metas[tid] = ({"side": "write", "integ": integ, "entry": entry, "ptype": c["PType"], "frame_size": fs, "explicit_flow": explicit},
+                        metas[tid] = ({"side": "write", "integ": integ, "entry": entry, "ptype": c["PType"], "frame_size": fs, "explicit_flow": explicit, "input": ik},
                                       {"statements": stmts, "frame_size": fs, "events": ev})
 
     # statements that each need MANY rows (every term a fresh IRI in an unseen namespace; quoted triples), with larger frame sizes:
